@@ -160,7 +160,7 @@ int evalSub(Env &e, vr::Report &r, size_t mi, int op, const std::string &rawName
     if (v.bad)
     {
       ++bad;
-      std::string viaTok = via ? via : escapeVia(e.A, rootCanon, name, l.bytes);
+      std::string viaTok = v.viaGzip ? "gzip-sidecar" : via ? via : escapeVia(e.A, rootCanon, name, l.bytes);
       std::string sig = std::string(opName(op)) + ":" + m.name + ":" + stepName + ":via=" + viaTok + ":to=" + v.where;
       r.violation(v.clause, sig, kase, std::string("step ") + stepName + ": " + v.detail);
     }
